@@ -157,11 +157,17 @@ def check(fb, ctx):
     bb = fb.body(AB + "::from_snapshot")
     bh = fb.hir_of(bb)
     refusals = set()
+    et_ids = set()
+    for l in find_all(bh["body"], lambda z: z.get("k") == "let" and isinstance(z.get("pat"), dict) and z["pat"].get("k") == "struct"):
+        for f in l["pat"].get("fields", []):
+            if f.get("name") == "execution_time":
+                et_ids |= {b_["id"] for b_ in find_all(f["pat"], lambda z: z.get("k") == "bind")}
     for i in find_all(bh["body"], lambda z: z.get("k") == "if"):
         if hirq.err_variant(i["then"]):
             for f in find_all(i["cond"], lambda z: z.get("k") == "field"):
                 refusals.add(f["name"])
-            for p in find_all(i["cond"], lambda z: is_local(z, "execution_time")):
+            # `execution_time` is destructured from the input struct: a binding of the field pattern, whatever the variable is called
+            for p in find_all(i["cond"], lambda z: hirq.is_lid(z, et_ids)):
                 refusals.add("execution_time")
     ctx.check({"blocks", "generated_facts", "iterations", "execution_time"} <= refusals, "BUILDER", "AuthorizerBuilder::from_snapshot refuses blocks / generated facts / iterations / execution time", "BUILDER|refusals", f"refusing tests found for {sorted(refusals)}", f"{bb['file']}:{bb['line']}")
     # ---- builder snapshot writer
